@@ -34,11 +34,11 @@ def fresh(v: Any) -> Any:
 
     ``sys.getsizeof`` of a non-ASCII str grows once its UTF-8 form has been cached (pickling a Result that
     holds the string does that), so a str object shared between renders could be measured differently by two
-    renders of one case.  Every render therefore gets its own copies; one-character strings are interpreter
-    singletons and are not used as non-ASCII data values.
+    renders of one case.  Every render therefore gets its own copies (one-character latin-1 strings are
+    interpreter singletons: see ``install``).
     """
     if isinstance(v, str):
-        return v.encode("utf-8", "surrogatepass").decode("utf-8", "surrogatepass") if len(v) > 1 else v
+        return v.encode("utf-8", "surrogatepass").decode("utf-8", "surrogatepass")
     if isinstance(v, list):
         return [fresh(i) for i in v]
     if isinstance(v, dict):
@@ -88,6 +88,13 @@ def install() -> None:
                 _RECORD.append(chain_total(self))
                 if _RAISED is not None:
                     _RAISED.append(raised)
+
+    # One-character latin-1 strings are interpreter-wide singletons; a captured 'é' is that singleton.  Give all
+    # of them their cached UTF-8 form now, so that their sys.getsizeof never changes during the run.
+    import pickle
+
+    for cp in range(128, 256):
+        pickle.dumps(chr(cp))
 
     assign.__wrapped__ = orig  # type: ignore[attr-defined]
     cls.assign = assign
